@@ -8,11 +8,20 @@ open CM CM.Model CM.Gen CM.Proofs
 
 /-! ### The session invariant -/
 
-theorem BI.fresh (x : PExt) (ln : Bytes) (hb : isBlankLine ln = false) (hnn : NoNul ln) :
+theorem BI.fresh (x : PExt) (ln : Bytes) (hl : IsLine ln) (hb : isBlankLine ln = false) (hnn : NoNul ln) :
     BI ln ((blocksLP x).line ((blocksLP x).new []) ln 0) := by
   have hfl := first_line x ln hb
   have hne : ln ≠ [] := by intro e; rw [e] at hb; cases hb
-  refine ⟨blocks_fresh x ln hb, blocksLP_line_LPG x _ (new_LPG x [] (fun _ h => by cases h)) ln 0, hnn, hne, ?_, ?_, ?_⟩
+  refine ⟨blocks_fresh x ln hb, blocksLP_line_LPG x _ (new_LPG x [] (fun _ h => by cases h)) ln 0, hnn, hne, ?_, ?_, ?_, ?_⟩
+  case refine_4 =>
+    intro k hk hko
+    have hroot : RootOK 0 0 0 ((blocksLP x).new []).root := docRoot_ok [] (Kids.nil 0 0) (fun _ h => (by cases h))
+    have := line_step onCloseParagraph_cuts x ((blocksLP x).new []) [] ln hroot (fun h' => by cases h') ⟨[], rfl⟩
+      (padded_of_noNul hnn) hl (fun h' => by cases h'.1) (Or.inl ⟨rfl, rfl, fun h' => by cases h'⟩)
+    have hp := this.para k (by
+      show ((blocksLP x).line ((blocksLP x).new []) ln 0).root.blocks.getLast? = some k
+      rw [hk]; rfl) hko
+    simpa using hp
   · intro k rest hk hko
     generalize (blocksLP x).line ((blocksLP x).new []) ln 0 = σ' at hk hfl
     cases hfl with
@@ -59,10 +68,13 @@ theorem BI.fresh (x : PExt) (ln : Bytes) (hb : isBlankLine ln = false) (hnn : No
       rcases e2 with e2 | e2 <;> exact absurd e2 (by decide)
 
 theorem BI.step (x : PExt) {src : Bytes} {σ : LP} (h : BI src σ) (ho : headOpen ((blocksLP x).kids σ) = true)
-    (ln : Bytes) (hne : ln ≠ []) (hnn : NoNul ln) : BI (src ++ ln) ((blocksLP x).line σ (src ++ ln) src.length) := by
+    (ln : Bytes) (hl : IsLine ln) (hnn : NoNul ln) (hj : ¬ CRLFSplit src ln) :
+    BI (src ++ ln) ((blocksLP x).line σ (src ++ ln) src.length) := by
+  have hne : ln ≠ [] := hl.1
   obtain ⟨k0, hb, hko⟩ := headOpen_single (x := x) h.inv ho
   obtain ⟨b1, b2, b3⟩ := line_BI_basic x h ln hne hnn
-  refine ⟨b1, b2, b3, by simp [hne], line_headKind x h k0 hb hko ln hne, ?_, line_spans x h k0 hb hko ln hne⟩
+  refine ⟨b1, b2, b3, by simp [hne], line_headKind x h k0 hb hko ln hne, ?_, line_spans x h k0 hb hko ln hne,
+    line_para x h k0 hb hko ln hl hnn hj⟩
   intro k rest hk hkc hks hg
   rcases line_good x h k0 hb hko ln k rest hk hkc hg with ⟨e1, _⟩ | ⟨_, _, _, e2, _, _⟩
   · exact e1
@@ -75,8 +87,8 @@ theorem BI.step (x : PExt) {src : Bytes} {σ : LP} (h : BI src σ) (ho : headOpe
 /-- **`blocksLP x` meets the session invariant of Layer U.** -/
 def sessB (x : PExt) : Sess (blocksLP x) where
   I := BI
-  fresh := fun ln _ hb hnn => BI.fresh x ln hb hnn
-  step := fun σ src ln h ho _ hl hnn _ => BI.step x h ho ln hl.1 hnn
+  fresh := fun ln hl hb hnn => BI.fresh x ln hl hb hnn
+  step := fun σ src ln h ho _ hl hnn hj => BI.step x h ho ln hl hnn hj.2
   pos := fun σ src h => h.pos
   ne := fun σ src h => h.inv.2.1
   ends := fun σ src h k hk hc => (blocksLP_wellS x).ends σ src h.inv k hk hc
@@ -209,9 +221,9 @@ theorem feed_stop (x : PExt) {σ : (blocksLP x).σ} {src : Bytes} {σ' : (blocks
     rcases line_good x h k0 hb hko ln k rest hk hkc hg with ⟨_, e⟩ | ⟨_, _, _, e, _, _⟩
     · rw [e]; simp only [List.length_append, Int.natCast_add]; omega
     · rw [e]; exact Int.le_refl _
-  | cons σ src ln σ' src' hl hnn _ ho1 hp1 _ ih =>
+  | cons σ src ln σ' src' hl hnn hj ho1 hp1 _ ih =>
     intro h ho k rest hk hkc hg
-    have h1 := BI.step x h ho ln hl.1 hnn
+    have h1 := BI.step x h ho ln hl hnn hj.2
     have := ih h1 ho1 k rest hk hkc hg
     have hlen : ((src ++ ln).length : Int) = (src.length : Int) + (ln.length : Int) := by simp
     omega
@@ -243,7 +255,7 @@ theorem closeIndepB (x : PExt) : CloseIndep (blocksLP x) (sessB x) (Good x) (Goo
         have hterm : terminated src = true := by
           rcases hln with e | ⟨_, e⟩
           · exact absurd e hne
-          · exact e
+          · exact e.1
         have hce := close_src_indep x h k0 hb hko hl hk0 ln hne hnn hterm k h0 hgood hgood2 hfl hc
         have he := eof_line x σ src k0 h.inv hb hko (hasMatch_leaf hl)
         rw [hce] at he
@@ -252,10 +264,10 @@ theorem closeIndepB (x : PExt) : CloseIndep (blocksLP x) (sessB x) (Good x) (Goo
         · simp only [PB.isOpen]; exact decide_eq_false (by omega)
         · unfold stopOf; rw [hst]; exact Int.toNat_natCast _
         · exact (hfl.tree).symm
-    | cons _ _ ln _ _ hl hnn _ ho1 hp1 hF' =>
+    | cons _ _ ln _ _ hl hnn hj ho1 hp1 hF' =>
       -- the first child stayed open over the next line: it cannot end where that line started
       exfalso
-      have h1 := BI.step x h ho ln hl.1 hnn
+      have h1 := BI.step x h ho ln hl hnn hj.2
       have := feed_stop x hF' h1 ho1 k rest hk hkc' hgood
       have hlen : ((src ++ ln).length : Int) = (src.length : Int) + (ln.length : Int) := by simp
       have hpos := List.length_pos_iff.mpr hl.1
